@@ -22,6 +22,9 @@ const c15Timeout = 2 * time.Second
 type c15Fault struct {
 	Kind string        `json:"kind"`
 	D    time.Duration `json:"d,omitempty"`
+	// Hints: the target sends a 103 Early Hints (an informational response, relayed to the client)
+	// before it fails
+	Hints bool `json:"early_hints_first,omitempty"`
 }
 
 type c15Scenario struct {
@@ -48,6 +51,7 @@ func c15Gen(rng *rand.Rand, idx int) c15Scenario {
 		case "close-at-once", "partial-status-line", "garbage", "cut-headers", "cut-after-status-line", "cut-between-headers":
 			f.D = pick(rng, []time.Duration{0, 0, 200*time.Millisecond + OffTarget, time.Second + OffTarget})
 		}
+		f.Hints = f.Kind != "refused" && rng.IntN(4) == 0
 		sc.Faults = append(sc.Faults, f)
 	}
 	return sc
@@ -79,6 +83,9 @@ func c15Serve(w *World) func(ft *FakeTarget, c net.Conn) {
 			wait := func(x time.Duration) bool { return w.sleep(x) }
 			if !wait(OffTarget) {
 				return
+			}
+			if m.First("X-Hints") == "1" {
+				c.Write([]byte("HTTP/1.1 103 Early Hints\r\nLink: </style.css>; rel=preload\r\n\r\n"))
 			}
 			switch m.First("X-Fault") {
 			case "close-at-once":
@@ -191,7 +198,7 @@ func c15Run(t *testing.T, run *Run, sc c15Scenario) {
 		}
 		defer conn.Close()
 		sent := w.Now()
-		raw := fmt.Sprintf("POST /f HTTP/1.1\r\nHost: %s\r\nX-V: %s\r\nX-Fault: %s\r\nX-D: %d\r\nContent-Length: 5\r\n\r\nhello", host, id, f.Kind, int64(f.D))
+		raw := fmt.Sprintf("POST /f HTTP/1.1\r\nHost: %s\r\nX-V: %s\r\nX-Fault: %s\r\nX-D: %d\r\nX-Hints: %d\r\nContent-Length: 5\r\n\r\nhello", host, id, f.Kind, int64(f.D), map[bool]int{true: 1}[f.Hints])
 		go conn.Write([]byte(raw))
 		m, err := readRawResponse(bufio.NewReader(conn), "POST")
 		return m, sent, w.Now(), err
@@ -226,7 +233,21 @@ func c15Run(t *testing.T, run *Run, sc c15Scenario) {
 		id := fmt.Sprintf("f%d", i)
 		m, sent, done, err := send(id, f)
 		early := contains(c15Early, f.Kind)
-		if early {
+		if early && f.Hints && (err != nil || m == nil) && f.Kind != "late-answer" {
+			// After a relayed informational response the statement can be read both ways (a header block
+			// has been delivered / the response's header block has not): a visibly aborted connection is
+			// accepted here too, provided it is prompt. What is never accepted is a complete-looking
+			// response with another status (judged below when a response was parsed).
+			limit := sent + f.D
+			if f.Kind == "silence" || f.Kind == "stall-headers" {
+				limit = sent + c15Timeout
+			}
+			if done > limit+Eps {
+				fail("not-prompt:"+f.Kind+":after-hints", "fault %s after early hints: connection aborted at %v, expected by %v", f.Kind, done, limit)
+				return
+			}
+			run.Count("abort_after_hints_accepted", 1)
+		} else if early {
 			if err != nil || m == nil {
 				fail("no-wellformed-response:"+f.Kind, "fault %s: client got no parsable response: %v", f.Kind, err)
 				return
@@ -287,7 +308,7 @@ func c15Run(t *testing.T, run *Run, sc c15Scenario) {
 				return
 			}
 		}
-		run.Class(fmt.Sprintf("%s|d=%v|req=%v|resp=%v|pages=%s", f.Kind, f.D > 0, sc.BufReq, sc.BufResp, sc.Pages))
+		run.Class(fmt.Sprintf("%s|d=%v|hints=%v|req=%v|resp=%v|pages=%s", f.Kind, f.D > 0, f.Hints, sc.BufReq, sc.BufResp, sc.Pages))
 		if !healthy(fmt.Sprintf("h%d", i)) {
 			return
 		}
